@@ -79,6 +79,8 @@ pub enum Act {
     EngineAdmin { sender: String, msg: eng::ExecuteMsg, attach: u128 },
     VammAdmin { v: usize, sender: String, msg: vamm::ExecuteMsg },
     FundAdmin { sender: String, msg: fund::ExecuteMsg },
+    /// a trader withdraws (or grants again) the cw20 allowance the engine pulls collateral with; no counterpart in a native deployment
+    Allowance { t: usize, grant: bool },
     Skip,
 }
 
@@ -96,6 +98,7 @@ impl Act {
             Act::EngineAdmin { .. } => "engine_admin",
             Act::VammAdmin { .. } => "vamm_admin",
             Act::FundAdmin { .. } => "fund_admin",
+            Act::Allowance { .. } => "allowance",
             Act::Skip => "skip",
         }
     }
@@ -1399,6 +1402,7 @@ impl Interp {
                 self.w.follow.push_back(Act::EngineAdmin { sender: self.w.pauser.clone(), msg: eng::ExecuteMsg::SetPause { pause: false }, attach: 0 });
                 Act::EngineAdmin { sender: self.w.pauser.clone(), msg: eng::ExecuteMsg::SetPause { pause: true }, attach: 0 }
             }
+            Op::Allowance { t, grant } => Act::Allowance { t: (*t as usize) % N_TRADERS, grant: *grant },
             Op::Handover { to } => {
                 // the pauser role is handed to a trading account (or back to the deployment's pauser account)
                 let mut cands: Vec<String> = self.w.traders.clone();
@@ -1438,6 +1442,7 @@ impl Interp {
             Act::Liquidate { who, .. } | Act::PayFunding { who, .. } => who.clone(),
             Act::SetOracle { .. } => self.w.owner.clone(),
             Act::EngineAdmin { sender, .. } | Act::VammAdmin { sender, .. } | Act::FundAdmin { sender, .. } => sender.clone(),
+            Act::Allowance { t, .. } => self.w.traders[*t].clone(),
             Act::NextBlock { .. } | Act::Skip => String::new(),
         }
     }
@@ -1520,6 +1525,20 @@ impl Interp {
                 let a = self.w.fund.clone();
                 self.w.exec(sender, &a, msg, &[], fault_at)
             }
+            Act::Allowance { t, grant } => match self.w.token.clone() {
+                None => ok_res(),
+                Some(token) => {
+                    let sender = self.w.traders[*t].clone();
+                    let spender = self.w.engine.to_string();
+                    // withdrawing takes the whole allowance away (the token drops the record), granting sets up a large one again
+                    let msg = if *grant {
+                        cw20::Cw20ExecuteMsg::IncreaseAllowance { spender, amount: u(u128::MAX / 4), expires: None }
+                    } else {
+                        cw20::Cw20ExecuteMsg::DecreaseAllowance { spender, amount: u(u128::MAX), expires: None }
+                    };
+                    self.w.exec(&sender, &token, &msg, &[], fault_at)
+                }
+            },
             Act::NextBlock { dt } => {
                 self.w.next_block(*dt, 1);
                 ok_res()
@@ -1561,6 +1580,7 @@ pub fn act_json(act: &Act) -> Value {
         Act::EngineAdmin { sender, msg, attach } => json!({"engine_admin": {"sender": sender, "msg": format!("{:?}", msg), "attach": attach.to_string()}}),
         Act::VammAdmin { v, sender, msg } => json!({"vamm_admin": {"v": v, "sender": sender, "msg": format!("{:?}", msg)}}),
         Act::FundAdmin { sender, msg } => json!({"fund_admin": {"sender": sender, "msg": format!("{:?}", msg)}}),
+        Act::Allowance { t, grant } => json!({"allowance": {"t": t, "grant": grant}}),
         Act::Skip => json!("skip"),
     }
 }
